@@ -308,3 +308,17 @@ V('C15-flip-only-x', 'C15', OR, "        values[flip_start + 1:flip_stop:2] = ys
 V('C15-flip-y-range-shifted', 'C15', OR, "        values[flip_start + 1:flip_stop:2] = ys[::-1]", "        values[flip_start + 1:flip_stop - 2:2] = ys[::-1]", rule='C15.c', analysis_error_ok=True)
 V('C15-flip-x-gets-y', 'C15', OR, "        values[flip_start:flip_stop:2] = xs[::-1]", "        values[flip_start:flip_stop:2] = ys[::-1]", rule='C15.c')
 V('C15-silent-rename-marker', 'C15', OR, "    expected_ccw[polygon_offsets[:-1]] = True", "    first_rings = polygon_offsets[:-1]\n    expected_ccw[first_rings] = True", expect='silent')
+
+# ------------------------------------------------------------------------------------------------ C16
+V('C16-buffer-offsets-ignore-offset', ['C16', 'C13'], BL, "        start = self.listarray.offset\n        stop = start + len(self.listarray) + 1", "        start = 0\n        stop = start + len(self.listarray) + 1", rule=None, rules={'C16': 'C16.a', 'C13': 'C13'}, analysis_error_ok=True)
+V('C16-buffer-offsets-no-fencepost', ['C16'], BL, "        stop = start + len(self.listarray) + 1", "        stop = start + len(self.listarray)", rule='C16.a')
+V('C16-flat-values-fast-path', ['C16'], BL, "        # Compute valid start/stop index into buffer values array.\n        buffer_offsets = self.buffer_offsets", "        if self.listarray.offset == 0:\n            return self.buffer_values\n        # Compute valid start/stop index into buffer values array.\n        buffer_offsets = self.buffer_offsets", rule='C16.a')
+V('C16-fixed-hardcoded-itemsize', ['C16'], BF, "            start = self.data.offset * self._element_len\n            stop = start + len(self.data) * self._element_len\n            return np.asarray(self.data.buffers()[1]).view(self.numpy_dtype)[start:stop]",
+  "            count = len(self.data) * self._element_len\n            return np.frombuffer(self.data.buffers()[1], dtype=self.numpy_dtype, count=count, offset=self.data.offset * self._element_len * 8)", rule='C16.b')
+V('C16-isnull-ignores-offset', ['C16', 'C17'], BA, "        _perform_extract_isnull_bytemap(buf, len(chunk), chunk.offset, offset, result)", "        _perform_extract_isnull_bytemap(buf, len(chunk), 0, offset, result)", rule=None, rules={'C16': 'C16.a', 'C17': 'C17'})
+V('C16-raw-read-elsewhere', 'C16', 'spatialpandas/geometry/line.py', "        offsets = self.buffer_outer_offsets\n        start_offsets0 = offsets[:-1]\n        stop_offsets0 = offsets[1:]", "        offsets = np.asarray(self.data.buffers()[1]).view(np.uint32)\n        start_offsets0 = offsets[:-1]\n        stop_offsets0 = offsets[1:]", rule='C16.a')
+V('C16-slice-returns-base-class', 'C16', BA, "                return self.__class__(self.data[item], dtype=self.dtype)", "                return GeometryArray(self.data[item], dtype=self.dtype)", rule='C16.d')
+V('C16-getitem-abs-check', 'C16', BA, "            if item < -len(self) or item >= len(self):", "            if abs(item) >= len(self):", rule='C16.e', analysis_error_ok=True)
+V('C16-getitem-negative-not-normalised', 'C16', BA, "                if item < 0:\n                    item += len(self)\n", "", rule='C16.e')
+V('C16-take-copies-sindex', ['C16'], BA, "        return self.__class__(self.data.take(indices), dtype=self.dtype)", "        result = self.__class__(self.data.take(indices), dtype=self.dtype)\n        result._sindex = self._sindex\n        return result", rule='C16.c')
+V('C16-silent-type-self', 'C16', BA, "                return self.__class__(self.data[item], dtype=self.dtype)", "                return type(self)(self.data[item], dtype=self.dtype)", expect='silent')
